@@ -8,6 +8,8 @@ pub mod parse;
 pub mod report;
 pub mod syntax;
 pub(crate) mod testing;
+#[cfg(okane_verif)]
+pub mod verif;
 
 #[cfg(test)]
 #[ctor::ctor]
